@@ -29,6 +29,8 @@ type c04Case struct {
 	Consumer  string    `json:"consumer"`        // streams | mux
 	Delay     []int     `json:"delay,omitempty"` // per received envelope (cyclic): number of yields (virtual) / 100 µs units (real)
 	Real      bool      `json:"real,omitempty"`
+	SlowEvery int       `json:"slowEvery,omitempty"` // virtual time: every n-th received envelope the consumer pauses ...
+	SlowMs    int       `json:"slowMs,omitempty"`    // ... this long (longer than the TCP write poll, so that blocked writes time out and resume)
 	ReadLimit int64     `json:"readLimit,omitempty"` // TCP transports: configured read limit (0 = default)
 	Trace     bool      `json:"trace,omitempty"`     // TCP transports: a trace writer is configured
 	PC        []int     `json:"pc,omitempty"`        // noise next to the traffic: one client goroutine issues a ProcessCommand per entry and cancels it after that many yields; the server's consumer answers each
@@ -91,15 +93,16 @@ func c04Build(id string, op c04Op) interface{} {
 }
 
 type c04Collector struct {
-	mu      sync.Mutex
-	recv    map[string][]string
-	corrupt []string
-	want    map[string]interface{}
-	n       int
-	delay   []int
-	real    bool
-	replier map[string]c04Side // dir -> the side that receives in that direction (it answers the ProcessCommand noise)
-	pcDup   bool
+	mu                sync.Mutex
+	recv              map[string][]string
+	corrupt           []string
+	want              map[string]interface{}
+	n                 int
+	delay             []int
+	real              bool
+	replier           map[string]c04Side // dir -> the side that receives in that direction (it answers the ProcessCommand noise)
+	pcDup             bool
+	slowEvery, slowMs int
 }
 
 func (c *c04Collector) got(dir string, kind string, e interface{}) {
@@ -133,6 +136,9 @@ func (c *c04Collector) got(dir string, kind string, e interface{}) {
 	c.n++
 	n := c.n
 	c.mu.Unlock()
+	if c.slowEvery > 0 && !c.real && n%c.slowEvery == 0 {
+		time.Sleep(time.Duration(c.slowMs) * time.Millisecond)
+	}
 	if len(c.delay) > 0 {
 		d := c.delay[n%len(c.delay)]
 		if c.real {
@@ -317,6 +323,9 @@ func judgeC04(c *c04Case, obs *c04Obs, o *Outcome) {
 	}
 	if c.ReadLimit != 0 {
 		o.Class("small-read-limit")
+	}
+	if c.SlowEvery > 0 {
+		o.Class("slow-consumer")
 	}
 	if c.Trace {
 		o.Class("traced")
